@@ -1228,16 +1228,18 @@ func scaleCases(c *Config) {
 		ro, a, fl := probe(h)
 		emitAll(h, ro, a, fl, level)
 	}
-	// quick tier: about 10^3, 10^4 and 4*10^4 intervals; arena around 128 and 16512 (2- and 3-byte lengths in the
-	// file), temp file around 256 KiB
+	// quick tier: about 10^3, 10^4, 4*10^4 and 6.6*10^4 intervals; arena around 128 and 16512 (2- and 3-byte lengths
+	// in the file), temp file around 256 KiB
 	arenaStraddle(scaleP{F: 1, L: 90, P: 2, T: 27, K: 2, A: 3}, 128, 2)
 	plain(scaleP{F: 5, L: 199, P: 2, V: 1, K: 2, A: 3, G: 5}, 2)
-	plain(scaleP{F: 50, L: 201, P: 2, V: 2, K: 4, A: 2, G: 7}, 1)
+	plain(scaleP{F: 50, L: 201, P: 2, V: 2, K: 4, A: 2, G: 7}, 0)
 	arenaStraddle(scaleP{F: 80, L: 200, P: 2, T: 343, K: 2, A: 3}, 16512, 0)
-	fileStraddle(scaleP{F: 140, L: 257, P: 2, K: 2, A: 3}, 1<<18, 1800, 1960, 1)
+	fileStraddle(scaleP{F: 140, L: 257, P: 2, K: 2, A: 3}, 1<<18, 1800, 1960, 0)
+	plain(scaleP{F: 320, L: 200, P: 2, V: 1, T: 1400, K: 2, A: 2}, 0) // 66 047 nodes: indices above 2^16
 	if c.Tier != "thorough" {
 		return
 	}
+	plain(scaleP{F: 50, L: 201, P: 2, V: 2, K: 4, A: 2, G: 7}, 2)
 	arenaStraddle(scaleP{F: 80, L: 200, P: 2, V: 1, T: 343, K: 2, A: 3}, 16512, 2)
 	fileStraddle(scaleP{F: 40, L: 200, P: 2, V: 1, K: 2, A: 3}, 1<<16, 1500, 1600, 2)
 	fileStraddle(scaleP{F: 140, L: 257, P: 2, V: 2, K: 2, A: 3}, 1<<18, 1800, 1960, 2)
